@@ -83,10 +83,13 @@ def _cer(host, hbh=1):
     return nt.M("CE", True, hbh, hbh, oh=host, auth=[4, 3])
 
 
+TX_KINDS = ["in_req_answer", "in_req_hold", "in_rejected", "dwr_from_peer", "unexpected_answer", "out_req_answer", "out_req_timeout", "out_req_late_answer", "dwr_from_node"]
+
+
 def cycle(kind, r: nt.Runner, i: int):
     """one repetition of a transaction / connection-attempt kind; leaves the node as it found it"""
     hb = 10 + i
-    if kind in ("in_req_answer", "in_req_hold", "in_rejected", "dwr_from_peer", "unexpected_answer", "out_req_answer", "dwr_from_node"):
+    if kind in TX_KINDS:
         c = r.conn_c
         if kind == "in_req_answer":
             r.do({"a": "feed", "c": c, "ms": [nt.M("APP", True, hb, hb, app=4, oh="p1.r1", realm="r1")]})
@@ -107,6 +110,16 @@ def cycle(kind, r: nt.Runner, i: int):
             st = r.do({"a": "send", "k": i + 1, "app": "a1", "realm": "r1", "timeout": 30, "pick": "first"})
             tx = [e for e in st["out"] if e["ev"] == "tx"][-1]
             r.do({"a": "feed", "c": tx["c"], "ms": [nt.M("APP", False, tx["m"]["hbh"], tx["m"]["e2e"], app=4, oh="p1.r1", rc=2001)]})
+        elif kind in ("out_req_timeout", "out_req_late_answer"):
+            st = r.do({"a": "send", "k": i + 1, "app": "a1", "realm": "r1", "timeout": 1, "pick": "first"})
+            tx = [e for e in st["out"] if e["ev"] == "tx"][-1]
+            for _ in range(2):
+                st2 = r.do({"a": "tick"})
+                for e in st2["out"]:          # keep the connection alive: answer the node's watchdog requests
+                    if e["ev"] == "tx" and e["m"]["cmd"] == "DW" and e["m"]["req"]:
+                        r.do({"a": "feed", "c": e["c"], "ms": [nt.M("DW", False, e["m"]["hbh"], e["m"]["e2e"], oh="p1.r1", rc=2001)]})
+            if kind == "out_req_late_answer":
+                r.do({"a": "feed", "c": tx["c"], "ms": [nt.M("APP", False, tx["m"]["hbh"], tx["m"]["e2e"], app=4, oh="p1.r1", rc=2001)]})
         elif kind == "dwr_from_node":
             for _ in range(8):
                 st = r.do({"a": "tick"})
@@ -166,7 +179,6 @@ def cycle(kind, r: nt.Runner, i: int):
             r.do({"a": "peer_close", "c": c})
 
 
-TX_KINDS = ["in_req_answer", "in_req_hold", "in_rejected", "dwr_from_peer", "unexpected_answer", "out_req_answer", "dwr_from_node"]
 CONN_KINDS = ["conn_peer_closes", "conn_dpr", "conn_unknown_peer", "conn_no_common_app", "conn_cer_timeout", "conn_garbage",
               "dial_refused", "dial_async_fail", "dial_cea_rejected", "dial_ok_peer_closes"]
 
